@@ -29,10 +29,33 @@ type verifFS struct {
 
 // verifNewFS composes a real STFS over the ghost drive and the symbolic index, as examples/full does.
 func verifNewFS(pipes config.PipeConfig, readOnly bool, withWriteBackend bool) *verifFS {
+	return verifNewFSCrypto(pipes, config.CryptoConfig{}, config.CryptoConfig{}, readOnly, withWriteBackend)
+}
+
+// verifCrypto returns (read, write) crypto configurations with opaque keys of the right dynamic types.
+func verifCrypto(pipes config.PipeConfig) (config.CryptoConfig, config.CryptoConfig) {
+	var r, w config.CryptoConfig
+	switch pipes.Encryption {
+	case config.EncryptionFormatAgeKey:
+		w.Recipient = vm.NewAgeRecipient()
+		r.Identity = vm.NewAgeIdentity()
+	case config.EncryptionFormatPGPKey:
+		w.Recipient = vm.NewPGPRecipient()
+		r.Identity = vm.NewPGPRecipient()
+	}
+	switch pipes.Signature {
+	case config.SignatureFormatMinisignKey:
+		w.Identity = vm.NewMinisignPrivateKey()
+		r.Recipient = vm.NewMinisignPublicKey()
+	}
+	return r, w
+}
+
+func verifNewFSCrypto(pipes config.PipeConfig, readCrypto, writeCrypto config.CryptoConfig, readOnly bool, withWriteBackend bool) *verifFS {
 	if pipes.RecordSize == 0 {
 		pipes.RecordSize = 20
 	}
-	env := operations.VerifNewEnv(pipes, config.CryptoConfig{}, config.CryptoConfig{})
+	env := operations.VerifNewEnv(pipes, readCrypto, writeCrypto)
 	v := &verifFS{Env: env}
 	writeOps := env.WriteOps
 	getBuf := func() (cache.WriteCache, func() error, error) {
